@@ -13,6 +13,7 @@ import (
 	"sort"
 	"strings"
 	"sync"
+	"unicode/utf8"
 
 	"verifharness/internal/synth"
 )
@@ -79,6 +80,9 @@ var artefacts = []string{"<nil>", "PANIC=", "BadExpr", "BadStmt", "BadDecl"}
 // what package fmt writes when verbs and operands do not fit: %!v(MISSING), %!d(string=x), %!(EXTRA ..), %!)(BADINDEX), %!(NOVERB)
 var fmtArtefact = regexp.MustCompile(`%!(.|\pL)?\((MISSING|EXTRA |BADINDEX|BADWIDTH|BADPREC|NOVERB|PANIC=|[A-Za-z_.*\[\]0-9{} ]+=)`)
 
+// a ruleguard template placeholder that reached the user unexpanded: $$, $name or $*name
+var placeholderArtefact = regexp.MustCompile(`\$(\$|\*\w*|[A-Za-z_]\w*)`)
+
 // C07Failure is one violated clause for one diagnostic.
 type C07Failure struct {
 	Class string
@@ -127,6 +131,12 @@ func CheckC07(f *File, starts map[int]bool, d Diag) []C07Failure {
 	}
 	if strings.TrimSpace(d.Text) == "" {
 		out = append(out, C07Failure{"empty-text", "diagnostic message is empty"})
+	}
+	if !utf8.ValidString(d.Text) && utf8.Valid(f.Src) {
+		out = append(out, C07Failure{"text-invalid-utf8", fmt.Sprintf("message is not valid UTF-8 although the analysed file is (a multi-byte character was cut): %q", clip(d.Text, 160))})
+	}
+	if m := placeholderArtefact.FindString(d.Text); m != "" && !strings.Contains(string(f.Src), m) {
+		out = append(out, C07Failure{"text-placeholder", fmt.Sprintf("message contains the unexpanded template placeholder %q: %s", m, clip(d.Text, 160))})
 	}
 	if m := fmtArtefact.FindString(d.Text); m != "" && !strings.Contains(string(f.Src), m) {
 		out = append(out, C07Failure{"text-artefact", fmt.Sprintf("message contains the fmt error marker %q: %s", m, clip(d.Text, 160))})
